@@ -24,8 +24,6 @@ impl RandomPolicy {
     }
 
     fn incr_mem_usage(&self, value: u64) -> u64 {
-        #[cfg(memcrs_verif)]
-        crate::verif::yield_atomic("memory_usage.fetch_add");
         let mut usage = self
             .memory_usage
             .fetch_add(value, atomic::Ordering::Release);
@@ -66,18 +64,8 @@ impl RandomPolicy {
     }
 
     fn decr_mem_usage(&self, value: u64) -> u64 {
-        #[cfg(memcrs_verif)]
-        crate::verif::yield_atomic("memory_usage.fetch_sub");
         self.memory_usage
             .fetch_sub(value, atomic::Ordering::Release)
-    }
-}
-
-#[cfg(memcrs_verif)]
-impl RandomPolicy {
-    /// Accounted memory usage.
-    pub fn verif_usage(&self) -> u64 {
-        self.memory_usage.load(atomic::Ordering::SeqCst)
     }
 }
 
